@@ -60,7 +60,10 @@ def canon_packet(p) -> bytes:
     if isinstance(p, (bytes, bytearray, memoryview)):
         return bytes(p)
     if isinstance(p, str):
-        return p.encode("utf-8", "surrogateescape")
+        try:
+            return p.encode("latin-1")      # line serializers (ascii / latin-1): the received bytes themselves
+        except UnicodeEncodeError:
+            return p.encode("utf-8", "surrogateescape")
     return repr(p).encode()
 
 
@@ -178,10 +181,12 @@ def run_impl(inp):
     return run_buffered(ser, hint, chunks)
 
 
-def decode_table(kind, cfg, impl, stream: bytes):
-    """Tabulate the inner one-shot codec on every payload the framing can extract from [stream]:
-    for every start position, the bytes up to the first separator at or after it (separator kinds) or the next
-    [size] bytes (fixed size)."""
+def decode_table(kind, cfg, impl, stream: bytes, positions="frames"):
+    """Tabulate the inner one-shot codec on the payloads the framing extracts from [stream].
+    positions="frames": the frames of the sequential split from position 0 (what a correct framer extracts);
+    positions="all": for every start position, the bytes up to the first separator at or after it / the next
+    [size] bytes (needed when overruns make the framer restart in the middle of a frame).  A payload the model
+    extracts that is not tabulated shows up as a disagreement, never as agreement."""
     ser = make_serializer(kind, cfg, impl)
     rows, seen = [], set()
 
@@ -198,14 +203,17 @@ def decode_table(kind, cfg, impl, stream: bytes):
 
     if kind in (0, 1):
         sep, keep_end = cfg[0], bool(cfg[2])
-        for i in range(len(stream) + 1):
+        i = 0
+        while i <= len(stream):
             j = stream.find(sep, i)
             if j < 0:
                 break
             add(stream[i:j + len(sep)] if keep_end else stream[i:j])
+            i = i + 1 if positions == "all" else j + len(sep)
     else:
         size = cfg[0]
-        for i in range(len(stream) - size + 1):
+        step = 1 if positions == "all" else size
+        for i in range(0, len(stream) - size + 1, step):
             add(stream[i:i + size])
     return rows
 
